@@ -80,9 +80,9 @@ CLAIMS.update({
         "successive loads of one cache are monotone (cache_loads_monotone); step theorems: a hit touches nothing, a miss performs exactly one load_full and releases the previously "
         "cached value exactly once. " + TIE + " The oracle checks every returned value against the write order on 1-3-preemption sweeps, the grid of the cache A-B-A shape (g06) and "
         "generated cache programs.",
-   note=NOTE + "Hypotheses of the run theorem: no set_generation, no generation counter within 4 of wrapping, and no thread faults in the run (fault freedom, C01, is proved for "
-        "programs without Cache commands, so it stays a hypothesis here; reference counts of the cached value are covered by the oracle only). The Relaxed comparison read is modelled "
-        "sequentially consistent. MapCache is not modelled.",
+   note=NOTE + "Fault freedom with Cache commands is proved as well (ASModel/Cch*.v: the master invariant re-proved with the cache's reference counted in the frames of a running cache "
+        "load; C16_no_fault, C16_cache_linearizable_total within RunOKC = RunOK with Cache commands allowed plus 'no other thread touches a cache handle while its load runs'; a checked "
+        "run with a hit and a miss inhabits the scope). The Relaxed comparison read is modelled sequentially consistent. MapCache is not modelled.",
    technique="Rocq/Coq proof (instrumented runs, inductive invariant over all schedules) + trace correspondence with a history oracle"),
  "C18": dict(engine="ASModel",
    text="Coq theorems over ASModel with a panicking rcu closure (panic on a chosen attempt, allocation on earlier ones): the unwind is exactly "
